@@ -24,6 +24,34 @@ Definition cleaner_deletes (now mark delay : Z) : bool := cleaner_due now mark d
 Definition partial_deleted (now lm : Z) (marked : bool) : bool :=
   if marked && partial_skips_marked then false else negb (partial_young now lm).
 
+(* getOldestModifiedTime: the bucket listing of the block's objects passes their
+   last-modified times [lms] (in listing order; [] = the bucket reports none) and may
+   fail after [k] objects ([fault] = Some k).  zero_time stands for Go's zero time.Time
+   (year 1).  What is returned on the error path is regenerated from clean.go
+   (oldest_time_on_error: the ULID creation time, not what was seen so far). *)
+Definition zero_time : Z := - 62135596800 * 1000000000.
+
+Definition seen_max (lms : list Z) : Z := fold_left Z.max lms zero_time.
+
+Definition time_used (ulid_t : Z) (lms : list Z) (fault : option nat) : Z :=
+  match fault with
+  | Some k => oldest_time_on_error ulid_t (seen_max (firstn k lms))
+  | None => let m := seen_max lms in if m =? zero_time then ulid_t else m
+  end.
+
+Definition partial_deleted_listing (now ulid_t : Z) (lms : list Z) (fault : option nat) (marked : bool) : bool :=
+  partial_deleted now (time_used ulid_t lms fault) marked.
+
+(* judged from the bucket's true attributes: every object (or, when the bucket reports no
+   times, the block's creation time) is older than the threshold *)
+Definition partial_pred_listing (now ulid_t : Z) (lms : list Z) (marked deleted : bool) : bool :=
+  if deleted then
+    negb marked && match lms with
+                   | [] => PartialUploadThresholdAge <? now - ulid_t
+                   | _ => forallb (fun t => PartialUploadThresholdAge <? now - t) lms
+                   end
+  else true.
+
 (* ---- the property's predicates, at an instant [now] ------------------------
    the newest sample of a block is at most MaxTime-1 (MaxTime is exclusive) *)
 Definition ret_pred (now maxt ret : Z) (marked : bool) : bool :=
@@ -41,7 +69,7 @@ Definition partial_pred (now lm : Z) (marked deleted : bool) : bool :=
 Inductive case :=
 | CRet (nowA nowB : Z) (blocks : list (Z * Z * bool))
 | CClean (nowA nowB delay : Z) (blocks : list (Z * bool))
-| CPartial (nowA nowB : Z) (blocks : list (Z * bool * bool)).
+| CPartial (nowA nowB : Z) (blocks : list (Z * list Z * option nat * bool * bool)).
 
 Definition agree (a b obs : bool) : bool := if Bool.eqb a b then Bool.eqb obs a else true.
 
@@ -54,8 +82,8 @@ Definition corr_ok (c : case) : bool :=
       forallb (fun x => let '(mark, d) := x in
         agree (cleaner_deletes nowA mark delay) (cleaner_deletes nowB mark delay) d) bs
   | CPartial nowA nowB bs =>
-      forallb (fun x => let '(lm, marked, d) := x in
-        agree (partial_deleted nowA lm marked) (partial_deleted nowB lm marked) d) bs
+      forallb (fun x => let '(ulid_t, lms, fault, marked, d) := x in
+        agree (partial_deleted_listing nowA ulid_t lms fault marked) (partial_deleted_listing nowB ulid_t lms fault marked) d) bs
   end.
 
 (* evaluated at the later reading: an action taken at some t <= nowB that
@@ -64,5 +92,5 @@ Definition pred_ok (c : case) : bool :=
   match c with
   | CRet _ nowB bs => forallb (fun x => let '(maxt, ret, m) := x in ret_pred nowB maxt ret m) bs
   | CClean _ nowB delay bs => forallb (fun x => let '(mark, d) := x in clean_pred nowB mark delay d) bs
-  | CPartial _ nowB bs => forallb (fun x => let '(lm, marked, d) := x in partial_pred nowB lm marked d) bs
+  | CPartial _ nowB bs => forallb (fun x => let '(ulid_t, lms, _, marked, d) := x in partial_pred_listing nowB ulid_t lms marked d) bs
   end.
